@@ -757,7 +757,7 @@ static Boolean GetSymSection(char* Name, LongInt* Erg, tStrComp const* pUnexpCom
     char*    q;
     int      l = strlen(Name);
 
-    if (Name[l - 1] != ']') {
+    if ((l == 0) || (Name[l - 1] != ']')) {
         *Erg = -2;
         return True;
     }
@@ -765,7 +765,7 @@ static Boolean GetSymSection(char* Name, LongInt* Erg, tStrComp const* pUnexpCom
     Name[l - 1] = '\0';
     q           = RQuotPos(Name, '[');
     Name[l - 1] = ']';
-    if (Name + l - q <= 1) {
+    if (!q || (Name + l - q <= 1)) {
         if (pUnexpComp) {
             WrStrErrorPos(ErrNum_InvSymName, pUnexpComp);
         } else {
